@@ -254,9 +254,13 @@ func fnLcs(ctx *cmdContext, args map[string]any) (output respValue, err error) {
 		return
 	}
 
-	if vals[0] == nil || vals[1] == nil {
-		output.data = respBulkString("")
-		return
+	// a missing key reads as the empty string
+	empty := ""
+	if vals[0] == nil {
+		vals[0] = &empty
+	}
+	if vals[1] == nil {
+		vals[1] = &empty
 	}
 
 	ls := newLongestSeq(*vals[0], *vals[1])
